@@ -189,6 +189,18 @@ V("O11.1", ["C11", "C02", "C05"], "c11_control", expect_verified=10,
   desc="If: JumpIfFalse right after the condition targets the byte after the consequence's Jump, that Jump targets the end, no placeholder left, sub-trees compiled once in source order; While: back jump to the first byte of the condition, JumpIfFalse and EVERY stop recorded for this loop target the first byte after the loop, loop context popped, enclosing loops' contexts untouched; Break/Continue: outside a loop SyntaxError with nothing emitted, inside they act on the innermost context only; conversions to 16/8-bit operands never panic")
 
 # ---------------------------------------------------------------------------------------------
+# C09 names
+# ---------------------------------------------------------------------------------------------
+V("O09.1w", ["C09"], "c09_names", expect_verified=7,
+  functions=["SymbolTable::new", "SymbolTable::new_context", "SymbolTable::leave_context", "SymbolTable::current_context", "SymbolTable::in_function", "SymbolTable::resolve", "SymbolTable::define"],
+  desc="context discipline, verbatim wrappers: declarations go to the innermost context; lookup tries the current context, then - only inside a function - the GLOBAL context, never an enclosing function's context; a function's context is pushed / popped as a whole")
+V("O09.3", ["C09", "C10", "C05"], "c09_slots", expect_verified=3,
+  functions=["Compiler::compile_expression arm Expr::Identifier", "Compiler::compile_statement arm Stmt::Let", "Compiler::compile_expression arm Expr::Assign"],
+  desc="unresolved name -> ReferenceError with nothing emitted; load/store opcode family chosen from the symbol's scope; operand == the symbol's slot; assignment stores then reloads the same slot; element assignment compiles target, index, value in order")
+K("O09.2", ["C09"], "lib", "c09_eval_order", functions=["eval"],
+  desc="eval enters the machine only after parse and compile succeeded (stages replaced by recorders): a compile-time reference error precedes any output")
+
+# ---------------------------------------------------------------------------------------------
 # per-property information for the evidence files
 # ---------------------------------------------------------------------------------------------
 NOT_APPLICABLE = {
@@ -197,6 +209,14 @@ NOT_APPLICABLE = {
 }
 
 PROPERTIES = {
+    "C09": {
+        "level": "proof",
+        "claim": "PARTIAL. Proved (Verus, verbatim): the symbol table's context discipline - a function body sees its own context and the global one, never an enclosing function's; declarations go to the innermost context - and the compiler arms that turn a resolved name into a load/store of exactly its slot in its scope's opcode family, with an unresolved name rejected before anything is emitted; proved (Kani): eval never enters the machine when compilation failed. NOT decided: the per-context scope stack itself (Context::define / resolve / enter_scope / leave_scope: innermost-scope-first lookup, latest declaration wins, names forgotten at block end, slot numbering).",
+        "note": "The undecided part is the core data structure (Vec<Vec<String>> with iterator adapters): no Verus model, and CBMC does not finish even a concrete 4-step scenario (> 500 s, measured). A change confined to Context::define/resolve is therefore NOT detected by this check. Trusted: Verus/Z3, Kani/CBMC, rules R1,R4.",
+        "design_ref": "DESIGN.md 3.13",
+        "undecided": ["Context::define / Context::resolve / total_len / enter_scope / leave_scope (per-context scope stack)", "compile-time slot == run-time slot for every program (composition)"],
+        "assumptions": ["ctx_resolve / ctx_define_symbol name what Context::resolve / define answer (uninterpreted)"],
+    },
     "C11": {
         "level": "proof",
         "claim": "Jump emission and patching are proved per arm on the real compiler code (Verus, verbatim arms Expr::If, Expr::While, Stmt::Break, Stmt::Continue for code buffers and loop nestings of every size): every jump of an if / while / stop / volgende ends up targeting exactly the position the construct's meaning requires, stop/volgende touch the innermost loop context only, and misplaced ones are rejected before anything is emitted; the machine's Jump / JumpIfFalse / Pop / Null arms do what the operands say (unit c02_arms); operand patching changes exactly two bytes (Kani).",
